@@ -449,10 +449,7 @@ func runC11(tier string, seed uint64) int {
 	var failing []batchLine // shape 0, one per class
 	var shaped []batchLine  // further shapes
 	r := NewRng(mix(seed, 11))
-	nShapes := 3
-	if tier == "thorough" {
-		nShapes = 4
-	}
+	nShapes := 4
 	for ci, class := range c11FaultClasses {
 		for sh := 0; sh < nShapes; sh++ {
 			src := scs[(ci+sh)%len(scs)]
